@@ -23,7 +23,7 @@ from vlib.report import Check
 SPEC = os.path.join(env.SPEC, "AssembleMoves")
 GRID = {  # cfg -> (P, A)
     "MC_2_1_3": (2, [3]), "MC_2_3_223": (2, [2, 2, 3]), "MC_3_2_23": (3, [2, 3]), "MC_4_2_22": (4, [2, 2]),
-    "MC_3_3_222": (3, [2, 2, 2]), "MC_6_2_22": (6, [2, 2]), "MC_4_3_222": (4, [2, 2, 2]), "MC_4_3_223": (4, [2, 2, 3]),
+    "MC_3_3_222": (3, [2, 2, 2]), "MC_6_2_22": (6, [2, 2]), "MC_5_2_22": (5, [2, 2]), "MC_4_3_222": (4, [2, 2, 2]), "MC_4_3_223": (4, [2, 2, 3]),
     "MC_4_4_2222": (4, [2, 2, 2, 2]),
 }
 MUTANTS = ["Mutant_nret", "Mutant_propinv", "Mutant_ratioinv", "Mutant_tempprop"]
@@ -45,7 +45,7 @@ def main():
         "of every mutation / recombination / dosage option at two temperatures, for every interval. Every bag is replayed in every "
         "row order into the real code. Non-trivial = bags with a duplicated haplotype (where copy-count and return-count terms matter)."
     )
-    cfgs = ["MC_2_1_3", "MC_2_3_223", "MC_3_2_23", "MC_4_2_22", "MC_3_3_222", "MC_6_2_22"]
+    cfgs = ["MC_2_1_3", "MC_2_3_223", "MC_3_2_23", "MC_4_2_22", "MC_3_3_222", "MC_6_2_22", "MC_5_2_22"]
     if not quick:
         cfgs += ["MC_4_3_222", "MC_4_3_223"]
     results = {}
